@@ -291,13 +291,13 @@ class Registry:
         self.args = set()    # id() of the Molecule objects the harness passed in
 
     def add_known(self, mol, top_label, inst_label):
-        self.top[id(mol._molecule_top)] = top_label
-        self.keep += [mol, mol._molecule_top]
+        self.top[id(mol.molecule_top)] = top_label
+        self.keep += [mol, mol.molecule_top]
         self.known.append((top_label, inst_label, np.array(mol.atoms_positions, dtype=float).copy()))
 
     def label(self, mol):
         """(top label, inst label, stored-by-reference flag)"""
-        tl = self.top.get(id(mol._molecule_top), -1)
+        tl = self.top.get(id(mol.molecule_top), -1)
         if id(mol) not in self.inst:
             self.keep.append(mol)
             pos = np.array(mol.atoms_positions, dtype=float)
@@ -313,8 +313,8 @@ def snap_mol(reg, m):
     if m is None:
         return None
     tl, il, byref = reg.label(m)
-    residues = [[] for _ in range(len(m._residues))]
-    for atom, r in zip(m, m._each_atom_resid):
+    residues = [[] for _ in range(len(m.residues))]
+    for atom, r in zip(m, [k for k, r in enumerate(m.residues) for _ in r]):
         residues[r].append((atom.resname, atom.name, int(atom.index), int(atom.top_resid)))
     hv = all(a.velocity is not None for a in m) if len(m) else False
     return (m.name, tl, il, bool(hv), residues, byref)
@@ -326,8 +326,8 @@ def snap_table(reg, man):
         em = al.exchange_map
         mp = None
         if em is not None:
-            mp = (snap_mol(reg, em._refmolecule), snap_mol(reg, em._targetmolecule), int(fbits(em.scale_factor)))
-        out.append((key, snap_mol(reg, al._start), snap_mol(reg, al._end), mp))
+            mp = (snap_mol(reg, getattr(em, '_refmolecule', None)), snap_mol(reg, getattr(em, '_targetmolecule', None)), int(fbits(em.scale_factor)))
+        out.append((key, snap_mol(reg, al.start), snap_mol(reg, al.end), mp))
     return out
 
 
@@ -437,7 +437,7 @@ def evaluate(ctx, case):
                     return [], "notmol"
                 if what == "top":
                     return MoleculeTop(vpaths[0][1]), "notmol"
-                return man.system.different_molecules[0]._residues[0], "notmol"      # a Residue
+                return man.system.different_molecules[0].residues[0], "notmol"      # a Residue
             k = a["v"]
             if a["fresh"] or k not in objs:
                 mol = Molecule.from_files(*vpaths[k])
@@ -481,7 +481,7 @@ def evaluate(ctx, case):
                 for _, marg in made:
                     t += _arg_tokens(marg)
                 mops.append(t)
-                before = [al._end for al in man.molecule_correspondence.values()]
+                before = [al.end for al in man.molecule_correspondence.values()]
                 try:
                     man.add_end_molecules(*[p for p, _ in made])
                 except Exception as e:   # noqa: BLE001
@@ -490,7 +490,7 @@ def evaluate(ctx, case):
                 for (py, _), _k in zip(made, range(len(made))):
                     if isinstance(py, Molecule) and py.name in attached:
                         al = man.molecule_correspondence[py.name]
-                        if al._end is not None and not any(al._end is b for b in before):
+                        if al.end is not None and not any(al.end is b for b in before):
                             note_attach(py, py.name, None)
                 ctx.count("sm:many:" + (type(err).__name__ if err else "ok"))
             elif kind == "set":
